@@ -56,7 +56,7 @@ func (x *Exec) call(st *State, c *ssa.Call) bool {
 	var bind []SV
 	if callee == nil {
 		fv := x.value(st, cc.Value)
-		if fv.K == KFunc && fv.Fn != nil {
+		if fv.K == KFunc && fv.Fn != nil && x.prog.contracts.Callbacks[sigString(cc.Value.Type())] == "" {
 			callee = fv.Fn
 			bind = fv.Bind
 		} else {
@@ -472,8 +472,8 @@ func parseModifies(items []string) ([]modItem, error) {
 // license describes, for one heap key, which (ref) or (array id, index) positions may change.
 type license struct {
 	whole bool
-	refs  []*Term            // F-keys: licensed references
-	spans []licSpan          // E-keys
+	refs  []*Term   // F-keys: licensed references
+	spans []licSpan // E-keys
 }
 type licSpan struct {
 	id, lo, hi *Term // absolute index range [lo,hi) within array id
